@@ -175,6 +175,6 @@ def strat_cumsum(tier):
 
 
 PARTS = [
-    Part("hdc", check_hdc, lambda tier: H.hdc_case(tier), quick=500, thorough=9000, shrink_quick=False, min_per_shard=4, min_nontrivial_frac=0.3),
-    Part("cumsum", check_cumsum, strat_cumsum, quick=3000, thorough=60000, min_nontrivial_frac=0.3),
+    Part("hdc", check_hdc, lambda tier: H.hdc_case(tier), quick=500, thorough=9000, shrink_quick=False, min_per_shard=4, min_nontrivial_frac=0.2),
+    Part("cumsum", check_cumsum, strat_cumsum, quick=3000, thorough=60000, min_nontrivial_frac=0.15),
 ]
